@@ -26,7 +26,7 @@ EXPLANATION = (
     "round-trip laws for arbitrary layouts."
 )
 ASSUMPTIONS = ["CPython ast parses /repo's source as the interpreter would"]
-MIN_INSTANCES = {"R-02e": 6, "R-02g": 5, "R-15e": 4, "R-15a": 5, "R-15b": 7, "R-15c": 3, "R-15d": 7}
+MIN_INSTANCES = {"R-15g": 4, "R-15f": 1, "R-02e": 6, "R-02g": 5, "R-15e": 4, "R-15a": 5, "R-15b": 7, "R-15c": 3, "R-15d": 7}
 
 
 def _norm_cond(t):
@@ -417,5 +417,70 @@ def r15e(model, ctx):
 # "assigning through a view field changes only that field's bits - in simulation and in synthesis alike": a view field
 # is a Slice (static key) or Part (dynamic index) of the target, so the clause rests on the window discipline of the
 # three assignment walkers (testbench evaluator, code generator, netlist builder), decided by R-02e / R-02g.
-RULES = [("R-15e", r15e), ("R-15a", r15a), ("R-15b", r15b), ("R-15c", r15c), ("R-15d", r15d),
+
+def r15f(model, ctx):
+    """an enumeration member written as an Amaranth constant is replaced by that constant's VALUE (sign included): the
+    enumeration's shape and every Const / init made from the member are derived from it"""
+    R = "R-15f"
+    ENUM = "amaranth/lib/enum.py"
+    f = model.func_view(f"{ENUM}::EnumType.__new__", depth=1)
+    sets = [c for c in ast.walk(f) if isinstance(c, ast.Call) and unparse(c.func) in ("dict.__setitem__", "namespace.__setitem__")
+            and len(c.args) >= 3 and unparse(c.args[1]) == "member_name"]
+    sets += [ast.Call(func=ast.Name(id="setitem", ctx=ast.Load()), args=[st.targets[0].value, st.targets[0].slice, st.value], keywords=[])
+             for st in ast.walk(f) if isinstance(st, ast.Assign) and isinstance(st.targets[0], ast.Subscript) and
+             unparse(st.targets[0]) == "namespace[member_name]"]
+    need(len(sets) == 1, "EnumType.__new__: the replacement of a constant member by its value was not found")
+    v = unparse(sets[0].args[2])
+    ok = v in ("member_const.value", "Const.cast(member_value).value")
+    ctx.check(ok, R, "EnumType.__new__:member-value", "constant members are stored as member_const.value",
+              f"a member given as an Amaranth constant must be stored as the constant's value (member_const.value); found `{v}`: "
+              f"storing its bit pattern turns Const(-2, signed(3)) into 6 and the enumeration unsigned", f"{ENUM}:{sets[0].args[2].lineno if hasattr(sets[0].args[2], 'lineno') else f.lineno}")
+
+
+
+def r15g(model, ctx):
+    """class-level tables (the declared field defaults of a Struct/Union, an enumeration's members) are shared by every
+    constant and signal made from the class: outside class construction (__new__ / __init_subclass__ / __prepare__) they are
+    read, never updated in place — neither directly nor through a local that aliases them (`fields = cls.__default;
+    fields.update(init)` leaks one call's values into all later ones)"""
+    R = "R-15g"
+    MUT = {"update", "append", "extend", "insert", "add", "setdefault", "pop", "remove", "clear", "discard", "popitem", "sort", "reverse"}
+    n = 0
+    for rel in ("amaranth/lib/data.py", "amaranth/lib/enum.py"):
+        mod = model.mod(rel)
+        for fn in ast.walk(mod.tree):
+            if not isinstance(fn, (ast.FunctionDef, ast.AsyncFunctionDef)) or fn.name in ("__new__", "__init_subclass__", "__prepare__"):
+                continue
+            if not any(isinstance(a, ast.Name) and a.id == "cls" for a in ast.walk(fn)):
+                continue
+            alias = {}
+            for st in ast.walk(fn):
+                if isinstance(st, ast.Assign) and len(st.targets) == 1 and isinstance(st.targets[0], ast.Name):
+                    vals = st.value.values if isinstance(st.value, ast.BoolOp) else \
+                        [st.value.body, st.value.orelse] if isinstance(st.value, ast.IfExp) else [st.value]
+                    for v in vals:
+                        if isinstance(v, ast.Attribute) and isinstance(v.value, ast.Name) and v.value.id == "cls":
+                            alias[st.targets[0].id] = unparse(st.value)
+            n += 1
+            bad = []
+            for x in ast.walk(fn):
+                tgts = []
+                if isinstance(x, ast.Call) and isinstance(x.func, ast.Attribute) and x.func.attr in MUT:
+                    tgts.append(x.func.value)
+                if isinstance(x, (ast.Assign, ast.Delete)):
+                    tgts += [t.value for t in x.targets if isinstance(t, ast.Subscript)]
+                if isinstance(x, ast.AugAssign):
+                    tgts.append(x.target.value if isinstance(x.target, ast.Subscript) else x.target)
+                for t in tgts:
+                    if isinstance(t, ast.Name) and t.id in alias:
+                        bad.append(f"`{unparse(x)[:60]}` with {t.id} = {alias[t.id]}")
+                    elif isinstance(t, ast.Attribute) and isinstance(t.value, ast.Name) and t.value.id == "cls":
+                        bad.append(f"`{unparse(x)[:60]}`")
+            ctx.check(not bad, R, f"{mod.qualname_of(fn)}:class-state-read-only", "class-level tables are not updated in place",
+                      f"{mod.qualname_of(fn)} updates class-level state in place: {bad}; every later constant or signal of the class "
+                      f"inherits the values of this call instead of the declared defaults (copy first)", f"{rel}:{fn.lineno}")
+    need(n >= 4, f"only {n} functions using `cls` found in lib/data.py and lib/enum.py")
+
+
+RULES = [("R-15g", r15g), ("R-15f", r15f), ("R-15e", r15e), ("R-15a", r15a), ("R-15b", r15b), ("R-15c", r15c), ("R-15d", r15d),
          ("R-02e", c02.r02e), ("R-02g", c02.r02g)]
